@@ -32,8 +32,36 @@ def T(x):
     if isinstance(x, dict):
         if "__mut__" in x:
             return new_mutable(x["__mut__"])
+        if "__amb__" in x:
+            return Amb(x["__amb__"])
         return {k: T(v) for k, v in x.items()}
     return x
+
+
+class Amb:
+    """A value in the manner of a numpy array: `a != b` has no truth value (raises), equality by tag still works for the
+    harness.  Code that asks 'did this value change?' with `!=` must cope."""
+
+    def __init__(self, tag):
+        self.tag = tag
+
+    def __eq__(self, other):
+        return isinstance(other, Amb) and other.tag == self.tag
+
+    def __ne__(self, other):
+        raise ValueError("The truth value of an Amb is ambiguous")
+
+    def __hash__(self):
+        return hash(("Amb", self.tag))
+
+    def __repr__(self):
+        return f"Amb({self.tag!r})"
+
+    def __deepcopy__(self, memo):
+        return self
+
+    def __reduce__(self):
+        return (Amb, (self.tag,))
 
 
 def new_mutable(kind):
